@@ -1393,7 +1393,7 @@ class Interp:
         for p in params:
             if p not in fr.locals:
                 raise RaiseEx("TypeError", node)
-        if (fi.parent is not None or isinstance(fi.node, ast.Lambda)) and hasattr(self, "_closure_frames"):
+        if hasattr(self, "_closure_frames") and (fi.parent is not None or isinstance(fi.node, ast.Lambda) or id(fi.node) in self._closure_frames):
             fr.parent = self._closure_frames.get(id(fi.node))
         is_gen = _is_generator(fi)
         if is_gen:
@@ -2135,6 +2135,31 @@ class Interp:
             return sorted(args[0], reverse=bool(kwargs.get("reverse", False)))
         if name == "divmod" and len(args) == 2 and _has_abs(args) and all(Lin.of(x) is not None for x in args):
             return (self.binop(ast.FloorDiv, args[0], args[1], node), self.binop(ast.Mod, args[0], args[1], node))
+        if name in ("combinations", "ext:itertools.combinations") and len(args) == 2 and isinstance(args[0], (list, tuple)) and isinstance(args[1], int):
+            import itertools as _it
+            return AIter([tuple(c) for c in _it.combinations(list(args[0]), args[1])])
+        if name in ("chain", "ext:itertools.chain", "ext:itertools.chain.from_iterable", "from_iterable"):
+            parts = list(args) if name in ("chain", "ext:itertools.chain") else (self.iterate(args[0], node) if args else [])
+            out_ = []
+            for p_ in parts:
+                out_.extend(self.iterate(p_, node))
+            return AIter(out_)
+        if name in ("bisect_left", "bisect_right", "bisect", "ext:bisect.bisect_left", "ext:bisect.bisect_right", "ext:bisect.bisect") \
+                and len(args) >= 2 and isinstance(args[0], (list, tuple)) and not _has_abs(list(args[0])):
+            # position in a sorted concrete list: the number of leading entries below (not above) the value -- one
+            # comparison per entry, each decided (or split) by the value's own domain
+            seq, x = list(args[0]), args[1]
+            lo_ = args[2] if len(args) > 2 else 0
+            hi_ = args[3] if len(args) > 3 else len(seq)
+            if not (isinstance(lo_, int) and isinstance(hi_, int)):
+                raise CannotDecide("bisect bounds %r %r" % (lo_, hi_))
+            op_ = ast.Lt if name.endswith("bisect_left") else ast.LtE
+            pos = lo_
+            while pos < hi_ and self.compare(op_, seq[pos], x, node):
+                pos += 1
+            return pos
+        if name == "object" and not args:
+            return AObj(None, {}, name="object()")
         if name in ("groupby", "ext:itertools.groupby") and args and isinstance(args[0], (list, tuple, AIter)):
             src = args[0]
             if isinstance(src, AIter):
@@ -2540,7 +2565,7 @@ class Interp:
             if fi.node is st:
                 qn = fi
         if qn is None:
-            raise CannotDecide("nested def %s not indexed" % st.name)
+            qn = FuncInfo(frame.mod, "<local %s>@%d" % (st.name, st.lineno), st)
         if not hasattr(self, "_closure_frames"):
             self._closure_frames = {}
         self._closure_frames[id(st)] = frame
